@@ -207,7 +207,7 @@ class PoolWorld(HistoryWorld):
             return {'op': 'import', 'c': self._ref(rng), 'idx': f[0], 'crc': f[1], 'cache': f[2], 'size_extra': rng.choice([0, 0, 1]), 'off_extra': rng.choice([0, 0, 2]),
                     'shuffle': rng.getrandbits(16), 'entry': rng.choice(['one', 'list']), 'caller': caller}
         if r < 0.86:
-            return {'op': 'slice_to_cell', 'c': self._ref(rng), 'skip_bits': rng.choice([0, 0, 1, 7, 8, rng.randint(0, 64)]), 'skip_refs': rng.choice([0, 0, 1, 2]), 'caller': caller}
+            return {'op': 'slice_to_cell', 'c': self._ref(rng), 'skip_bits': rng.choice([0, 0, 1, 7, 8, rng.randint(0, 64)]), 'skip_refs': rng.choice([0, 0, 1, 2]), 'after_bits': rng.choice([0, 0, 1, 8, 33]), 'after_refs': rng.choice([0, 0, 1]), 'caller': caller}
         return {'op': 'via_builder', 'c': self._ref(rng), 'caller': caller}
 
     def _gen_c01(self, st, rng, cfg):
@@ -500,7 +500,16 @@ class PoolWorld(HistoryWorld):
                 s.skip_bits(sb)
             for _ in range(sr):
                 s.load_ref()
-            return s.to_cell()
+            c = s.to_cell()
+            # the slice stays in use after the conversion
+            ab = min(op.get('after_bits', 0), len(twin.bits))
+            if ab:
+                s.load_bits(ab)
+            for _ in range(min(op.get('after_refs', 0), len(twin.refs))):
+                s.load_ref()
+            if ab or (op.get('after_refs') and twin.refs):
+                ctx.probe('slice-consumed-further-after-to_cell')
+            return c
         ok, c = call(mk)
         if not ok:
             return 'raised:' + type(c).__name__
